@@ -61,6 +61,11 @@ Sensitivity (quick tier, seed 1, scratch copies of /repo/tornado, one mutant at 
       Found by independent mutation testing: earlier versions always passed max_redirects/follow_redirects per
       request, so the defaults channel was added to the strategy and to the chain-length x max_redirects grid
       (chains 0..6 x limits 0..5 x both channels; labels *_via_client_defaults).
+  (round 9, "state carried over"): the redirect part now optionally runs a `history` of 1-2 further chains through the SAME
+      client (about half of the sampled cases + 9 grid rows), with per-request redirect budget / follow flag / method /
+      credentials differing from the first fetch and from the client `defaults`; each chain is judged independently and ends
+      with a probe fetch.  The admission part already issued several fetches with different per-request timeouts through one
+      client.  (The C08 parameter-caching mutant is caught by C08; no C09 mutant was missed in that round.)
   M13 run(): the post-connect guard `if self.final_callback is None: stream.close(); return` narrowed to
       `self.request.connect_timeout and ...` and the second guard removed (a connect that succeeds after the fetch already
       timed out, with connect_timeout=0, is used: the request of the completed fetch is written and served)
@@ -474,6 +479,19 @@ red_case_s = st.fixed_dictionaries({
     "mr_via_defaults": st.sampled_from([False, False, True]),
     "follow_via_defaults": st.sampled_from([False, False, True]),
 })
+_red_member_s = red_case_s
+
+
+@st.composite
+def _red_with_history(draw):
+    case = dict(draw(_red_member_s))
+    n_more = draw(st.sampled_from([0, 0, 0, 1, 1, 2]))
+    if n_more:
+        case["history"] = [draw(_red_member_s) for _ in range(n_more)]
+    return case
+
+
+red_case_s = _red_with_history()
 
 
 def basic(u, p):
@@ -699,11 +717,22 @@ def build_request(case, start):
     return req, secrets, bool(pairs and case["cookies"])
 
 
-def run_redirects(ctx, case):
-    start, expected, responses, want, facts = plan_chain(case)
-    st_ = {}
+def redirect_members(case):
+    """The fetches of a case: the case itself plus an optional `history` of further redirect chains fetched through the SAME
+    client afterwards.  Client-level settings (max_clients, defaults) are those of the first one; later fetches give their
+    redirect policy per request - so per-request options differ between the fetches of one client."""
+    out = [case]
+    for extra in case.get("history") or []:
+        out.append(dict(extra, max_clients=case["max_clients"], mr_via_defaults=False, follow_via_defaults=False))
+    return out
 
-    async def scenario():
+
+def run_redirects(ctx, case):
+    members = redirect_members(case)
+    plans = [plan_chain(m) for m in members]
+    sts = [{} for _ in members]
+
+    async def scenario(logs):
         fake = ch.FakeTCPClient()
         defaults = {}
         if case.get("mr_via_defaults"):
@@ -712,67 +741,89 @@ def run_redirects(ctx, case):
             defaults["follow_redirects"] = case["follow"]
         ckw = {"defaults": defaults} if defaults else {}
         client = ch.make_client(fake, max_clients=case["max_clients"], **ckw)
-        req, secrets, has_cookie = build_request(case, start)
-        st_["secrets"], st_["has_cookie"] = secrets, has_cookie
-        fut = client.fetch(req, raise_error=False)
-        dc = ch.DoneCounter(fut)
-        received = []  # (call, raw bytes)
-        for _ in range(40):
-            await ch.settle(fake)
-            progressed = False
-            for c in fake.calls:
-                if c.tag is None and c.stream is not None:
-                    c.tag = "served"
-                    raw = bytes(c.stream.wire)
-                    received.append((c, raw))
-                    progressed = True
-                    idx = None
-                    try:
-                        rq = ch.parse_request(raw)
-                        ms = MARK.findall(rq.target.split("?")[0])
-                        idx = int(ms[-1]) if ms else 0
-                    except ch.ReqError:
-                        rq = None
-                    if idx is not None and idx < len(responses):
-                        data, eof = responses[idx]
-                        c.stream.feed(data, [7, 1, 30])
-                        if eof:
-                            c.stream.feed_eof()
-                    else:
-                        c.stream.feed_eof()
-            if not progressed:
-                break
-        await ch.settle(fake)
-        st_["done_at_quiescence"] = fut.done()
-        if not fut.done():
-            await ch.advance(fake, 60.0)
-        st_["outcome"] = ch.outcome(fut)
-        st_["done_count"] = dc.count
-        st_["received"] = received
-        st_["idle"] = (len(client.active), len(client.queue), len(client.waiting))
-        if fut.done():
-            # a later fetch must still get a slot and complete (nothing of the finished fetch blocks the client)
-            n0 = len(fake.calls)
-            probe = client.fetch("http://probe.test/", raise_error=False, follow_redirects=False)
-            await ch.settle(fake)
-            new = [c for c in fake.calls[n0:] if c.host == "probe.test" and c.stream is not None]
-            if not new:
-                st_["probe"] = "not_started"
-            else:
-                new[0].tag = "probe"
-                new[0].stream.feed(b"HTTP/1.1 200 OK\r\nContent-Length: 0\r\n\r\n")
+        for m, plan, st_ in zip(members, plans, sts):
+            start, expected, responses, want, facts = plan
+            log0 = len(logs.records)
+            req, secrets, has_cookie = build_request(m, start)
+            st_["secrets"], st_["has_cookie"] = secrets, has_cookie
+            fut = client.fetch(req, raise_error=False)
+            dc = ch.DoneCounter(fut)
+            received = []  # (call, raw bytes)
+            for _ in range(40):
                 await ch.settle(fake)
-                st_["probe"] = "done" if probe.done() else "pending"
-        for c in fake.calls:
-            if c.stream is not None and not c.stream.closed():
-                c.stream.close()
-        await ch.settle(fake)
-        st_["done_count_final"] = dc.count
+                progressed = False
+                for c in fake.calls:
+                    if c.tag is None and c.stream is not None:
+                        c.tag = "served"
+                        raw = bytes(c.stream.wire)
+                        received.append((c, raw))
+                        progressed = True
+                        idx = None
+                        try:
+                            rq = ch.parse_request(raw)
+                            ms = MARK.findall(rq.target.split("?")[0])
+                            idx = int(ms[-1]) if ms else 0
+                        except ch.ReqError:
+                            rq = None
+                        if idx is not None and idx < len(responses):
+                            data, eof = responses[idx]
+                            c.stream.feed(data, [7, 1, 30])
+                            if eof:
+                                c.stream.feed_eof()
+                        else:
+                            c.stream.feed_eof()
+                if not progressed:
+                    break
+            await ch.settle(fake)
+            st_["done_at_quiescence"] = fut.done()
+            if not fut.done():
+                await ch.advance(fake, 60.0)
+            st_["outcome"] = ch.outcome(fut)
+            st_["done_count"] = dc.count
+            st_["received"] = received
+            st_["idle"] = (len(client.active), len(client.queue), len(client.waiting))
+            if fut.done():
+                # a later fetch must still get a slot and complete (nothing of the finished fetch blocks the client)
+                n0 = len(fake.calls)
+                probe = client.fetch("http://probe.test/", raise_error=False, follow_redirects=False)
+                await ch.settle(fake)
+                new = [c for c in fake.calls[n0:] if c.host == "probe.test" and c.stream is not None]
+                if not new:
+                    st_["probe"] = "not_started"
+                else:
+                    new[0].tag = "probe"
+                    new[0].stream.feed(b"HTTP/1.1 200 OK\r\nContent-Length: 0\r\n\r\n")
+                    await ch.settle(fake)
+                    st_["probe"] = "done" if probe.done() else "pending"
+            for c in fake.calls:
+                if c.stream is not None and not c.stream.closed():
+                    c.stream.close()
+                if c.tag is None:
+                    c.tag = "leftover"
+            await ch.settle(fake)
+            st_["done_count_final"] = dc.count
+            st_["log_errors"] = [r for r in logs.records[log0:]
+                                 if r[0] in ("tornado.application", "tornado.general", "asyncio") and r[1] >= 40]
         client.close()
 
     with LogCapture() as logs:
-        vtime.run(scenario)
+        vtime.run(scenario, logs)
 
+    labels = set()
+    nontrivial = False
+    for i, (m, plan, st_) in enumerate(zip(members, plans, sts)):
+        if "outcome" not in st_:
+            raise AssertionError("redirect history member %d was not run" % i)
+        lab, nt = judge_redirect(ctx, m, plan, st_, i, len(members))
+        labels |= lab
+        nontrivial = nontrivial or nt
+    if len(members) > 1:
+        labels.add("redirect_history_%d_fetches_one_client" % len(members))
+    ctx.note(case, labels, nontrivial=nontrivial)
+
+
+def judge_redirect(ctx, case, plan, st_, member_index, member_count):
+    start, expected, responses, want, facts = plan
     o = st_["outcome"]
     received = st_["received"]
     secrets = st_["secrets"]
@@ -781,6 +832,8 @@ def run_redirects(ctx, case):
     base = {"start": start, "want": want, "got": repr(o)[:200], "requests": summary,
             "hops": [(h["status"], h["loc"], h["interim"]) for h in case["hops"]], "final": case["final"],
             "max_redirects": case["max_redirects"], "follow": case["follow"]}
+    if member_count > 1:
+        base["fetch"] = "#%d of %d through one client" % (member_index + 1, member_count)
 
     # narrow structural classes of the open findings
     # (symptom of the body_producer finding: a connection was opened for the rewritten request and nothing was written)
@@ -870,7 +923,7 @@ def run_redirects(ctx, case):
         ctx.fail("C09.client_not_idle", dict(base, state=st_["idle"]), sig=sig_interim or sig_producer or "C09.client_not_idle")
     if o[0] != "pending" and st_.get("probe") != "done":
         ctx.fail("C09.later_fetch_blocked", dict(base, probe=st_.get("probe"), state=st_["idle"]))
-    bad = [r for r in logs.errors() if "Exception in callback" in r[2] or "ncaught" in r[2]]
+    bad = [r for r in st_["log_errors"] if "Exception in callback" in r[2] or "ncaught" in r[2]]
     if want[0] == "settle" and want[1] != "unsupported_scheme":
         bad = []  # a ValueError from urllib while the follow-up is built is logged ("Uncaught exception") by design
     if bad:
@@ -916,7 +969,7 @@ def run_redirects(ctx, case):
         labels.add("cross_origin_with_credentials")
     for h in case["hops"][: facts["followed"]]:
         labels.add("loc:" + h["loc"])
-    ctx.note(case, labels, nontrivial=crossed_with_creds)
+    return labels, crossed_with_creds
 
 
 def case_method_has_body(e):
@@ -951,6 +1004,14 @@ def red_grid():
             for via in (False, True):
                 yield _rbase(max_redirects=m, mr_via_defaults=via, follow_via_defaults=via and m % 2 == 1,
                              hops=[{"status": 302, "loc": "rel_abs_path", "interim": False, "eof": True}] * n)
+    hop = lambda st_, loc: {"status": st_, "loc": loc, "interim": False, "eof": True}  # noqa: E731
+    for m1 in (0, 2, 5):
+        for m2 in (0, 1, 4):
+            # one client, two fetches with different per-request redirect budgets / policies / methods / credentials
+            yield _rbase(max_redirects=m1, mr_via_defaults=(m1 == 2), hops=[hop(302, "rel_abs_path")] * 3,
+                         history=[_rbase(max_redirects=m2, follow=(m2 != 1), method="POST", hdr_auth=None, auth=True,
+                                         url="creds", hops=[hop(303, "other_host"), hop(307, "rel_path")]),
+                                  _rbase(max_redirects=5, method="HEAD", cookies=[], hops=[hop(301, "bad_bracket")])])
     for follow in (True, False):
         yield _rbase(follow=follow, follow_via_defaults=True, max_redirects=3, mr_via_defaults=not follow,
                      hops=[{"status": 301, "loc": "other_host", "interim": False, "eof": True}] * 2)
